@@ -998,10 +998,24 @@ func (g *Graph) SampleTries(n int, seed int64) (map[string]*Trie, int) {
 			back = append(back, c)
 		}
 	}
-	// the classes on which the stale-file deviation fires need the longest histories and are rare: first
-	sort.SliceStable(front, func(i, j int) bool {
-		return strings.Contains(classOf(front[i]), "staleFile") && !strings.Contains(classOf(front[j]), "staleFile")
-	})
+	// the classes on which the stale-file deviation fires need the longest histories and are rare: first;
+	// then, deliberately, two classes of every configuration whose autobind list contains the model output
+	// package (every Generate of such a history runs on a tree holding the previous models_gen.go)
+	rank := map[string]int{}
+	perCfg := map[string]int{}
+	for _, c := range front {
+		k := classOf(c)
+		switch {
+		case strings.Contains(k, "staleFile"):
+			rank[k] = 0
+		case c.e.SSt.Cfg.ab() != "none" && perCfg[k[:strings.Index(k, "|")]] < 2:
+			perCfg[k[:strings.Index(k, "|")]]++
+			rank[k] = 1
+		default:
+			rank[k] = 2
+		}
+	}
+	sort.SliceStable(front, func(i, j int) bool { return rank[classOf(front[i])] < rank[classOf(front[j])] })
 	cands = append(front, back...)
 	out := map[string]*Trie{}
 	for _, c := range cands[:n] {
